@@ -73,6 +73,14 @@ MUTS = {
    "         << std::setw(cvm::cv_width) << std::setprecision(cvm::cv_prec)\n         << value_output(ix, imult);",
    "         << std::setw(cvm::cv_width) << std::setprecision(10)\n         << value_output(ix, imult);"),
  "R4_binary_read_accepts_short": ("src/colvargrid_def.h", "      if (is >> new_value) {\n        g.value_input(ix, new_value, imult);\n      } else {", "      if ((is >> new_value) || std::is_same<IST, cvm::memory_stream>::value) {\n        g.value_input(ix, new_value, imult);\n      } else {"),
+ "Q1_bound_no_clamp_low": ("src/colvargrid.h", "    if (bin_index < 0) bin_index=0;\n", "    if (bin_index < -1) bin_index=0;\n"),
+ "Q2_fraction_uses_trunc": ("src/colvargrid.h", "    return x - cvm::floor(x);", "    return x - (cvm::real)((long) x);"),
+ "Q3_wrap_to_edge_upper": ("src/colvargrid.h", "        edge_bin[i] = nx[i] - 1;", "        edge_bin[i] = nx[i];"),
+ "Q4_map_grid_uses_lower_edge": ("src/colvargrid.h", "    return new_offset.real_value + new_width * (0.5 + i_bin);", "    return new_offset.real_value + new_width * (0.0 + i_bin);"),
+ "Q5_add_grid_scale_ignored": ("src/colvargrid.h", "        data[i] += static_cast<T>(scale_factor * other_grid.data[i]);", "        data[i] += static_cast<T>(other_grid.data[i]);"),
+ "Q6_extra_bin_periodic_widened": ("src/colvargrid.h", "        if (periodic[i]) {\n          // Just shift\n          upper_boundaries[i] -= 0.5 * widths[i];", "        if (false) {\n          // Just shift\n          upper_boundaries[i] -= 0.5 * widths[i];"),
+ "Q7_hist_binary_state_not_read": ("src/colvarbias_histogram.cpp", "cvm::memory_stream & colvarbias_histogram::read_state_data(cvm::memory_stream& is)\n{\n  if (read_state_data_key(is, \"grid\")) {\n    grid->read_raw(is);", "cvm::memory_stream & colvarbias_histogram::read_state_data(cvm::memory_stream& is)\n{\n  if (read_state_data_key(is, \"grid\")) {\n    colvar_grid_scalar tmp(*grid); tmp.setup(); tmp.read_raw(is);"),
+ "Q8_delta_grid_sign": ("src/colvargrid.h", "      data[i] = other_grid.data[i] - data[i];", "      data[i] = data[i] - other_grid.data[i];"),
  "M14_init_from_boundaries_truncates": ("src/colvargrid.h", "      int nbins_round = (int)(nbins+0.5);", "      int nbins_round = (int)(nbins);"),
  "M15_state_sizes_line_missing_value": ("src/colvargrid_def.h", "  for (i = 0; i < nd; i++)\n    os << \" \" << nx[i];", "  for (i = 0; i + 1 < nd; i++)\n    os << \" \" << nx[i];"),
  "M10_raw_values_not_in_address_order": ("src/colvargrid_def.h",
